@@ -55,6 +55,10 @@ namespace GeographicLib {
     // 5-month period is 153 days long. Since February is now at the end of
     // the year, we don't need to include its length in this part of the
     // calculation.
+    // keep the calendar arithmetic (here and in gregorian()) within int
+    if (!(y >= -200000 && y <= 200000 && m >= -100000 && m <= 100000 &&
+          d >= -10000000 && d <= 10000000))
+      throw GeographicErr("Date out of range " + str(y) + "-" + str(m) + "-" + str(d));
     bool greg = gregorian(y, m, d);
     y += (m + 9) / 12 - 1; // Move Jan and Feb to previous year,
     m = (m + 9) % 12;      // making March month 0.
@@ -87,6 +91,8 @@ namespace GeographicLib {
   }
 
   void Utility::date(int s, int& y, int& m, int& d) {
+    if (!(s >= -500000000 && s <= 500000000))
+      throw GeographicErr("Day number out of range " + str(s));
     int c = 0;
     bool greg = gregorian(s);
     s += 305;                 // s = 0 on March 1, 1BC
